@@ -8,6 +8,8 @@
   quantities on the whole batch, the row-wise path only on the routed records).
 -/
 import Hg.Proofs.NpLaws
+import Hg.Proofs.DenoteLaws
+import Hg.Proofs.TreeLaws3
 import Hg.Proofs.CountTLaws
 
 namespace Hg.C03
@@ -20,6 +22,17 @@ theorem fillNp_eq_rows (t : Agg) (rows : List Datum) (ws : List Val)
     (hq : qtysOk t rows = true) :
     (fillNp t rows ws).map prune = some (prune (fillAll t (rows.zip ws))) :=
   Hg.fillNp_eq_rows t rows ws hlen hw hrun ht hs hq
+
+/-- with C02: a vectorised fill of an empty tree computes the closed-form specification `denote` of the batch's
+weighted multiset, up to zero-weight sparse bins -/
+theorem fillNp_eq_denote (z : Agg) (rows : List Datum) (ws : List Val)
+    (hz : isZeroTree z = true) (hn : noBins z = true)
+    (hlen : rows.length = ws.length) (hw : nonNegW ws = true)
+    (hrun : goodRun z (rows.zip ws) = true) (ht : hasTmpl z = true) (hs : noNanForSums z rows = true)
+    (hq : qtysOk z rows = true) :
+    (fillNp z rows ws).map prune = some (prune (denote z (rows.zip ws))) := by
+  rw [← Hg.fillAll_eq_denote z (rows.zip ws) hz ht hn hrun]
+  exact Hg.fillNp_eq_rows z rows ws hlen hw hrun ht hs hq
 
 /-- successive `fill.numpy` calls on any split of a batch equal one call on the whole batch -/
 theorem fillNp_split (t : Agg) (rows1 rows2 : List Datum) (ws1 ws2 : List Val)
